@@ -60,6 +60,11 @@ def stateful_views(tmp):
         ('fromdicts(generator)', lambda: etl.fromdicts(gen_dicts(3))),
         ('fromdicts(generator,sample=1)', lambda: etl.fromdicts(gen_dicts(3), sample=1)),
         ('fromdicts(generator,header)', lambda: etl.fromdicts(gen_dicts(3), header=['k', 'v'])),
+        # compositions: shared state several layers down
+        ('cache(sort(join))', lambda: etl.wrap(etl.sort(etl.join(a, b, key='k', buffersize=2, tempdir=tmp), 'n', buffersize=2, tempdir=tmp)).cache()),
+        ('aggregate(hashjoin)', lambda: etl.aggregate(etl.hashjoin(a, b, key='k'), 'k', len, buffersize=1, tempdir=tmp)),
+        ('select(sort(cache))', lambda: etl.select(etl.sort(etl.wrap(a).cache(2), 'n', reverse=True), lambda r: True)),
+        ('sort(fromdicts(generator))', lambda: etl.sort(etl.fromdicts(gen_dicts(3)), 'k', buffersize=2, tempdir=tmp)),
         ('randomtable', lambda: etl.randomtable(2, 3, seed=42)),
         ('dummytable', lambda: etl.dummytable(3, seed=42)),
     ]
